@@ -75,7 +75,11 @@ func change(outs []sn.Out, to string, total *big.Int, spent int64) []sn.Out {
 
 // Build prepares the node (setup block with the account, its funding and the contract's
 // funds) and the accepted corpus. gas > 0 makes the chain charge for resources.
-func Build(cfg sn.Config) (*World, error) {
+func Build(cfg sn.Config) (*World, error) { return BuildOpt(cfg, 1) }
+
+// BuildOpt is Build with the contract's funds split into `coins` outputs (a pre-execution
+// locks the contract outputs it selects for a long time).
+func BuildOpt(cfg sn.Config, coins int) (*World, error) {
 	n, err := sn.NewNode(cfg)
 	if err != nil {
 		return nil, err
@@ -114,8 +118,16 @@ func Build(cfg sn.Config) (*World, error) {
 		return nil, fmt.Errorf("preexec fund contract: %v", err)
 	}
 	ins, tot = w.sel(k3.Address, 700)
+	var couts []sn.Out
+	for c := 0; c < coins; c++ {
+		amt := int64(700 / coins)
+		if c == coins-1 {
+			amt = 700 - int64(coins-1)*(700/int64(coins))
+		}
+		couts = append(couts, sn.Out{To: sn.VerifContract, Amount: big.NewInt(amt)})
+	}
 	x, err = sn.BuildTx(sn.TxSpec{Initiator: k3.Address, Signers: []*sn.Key{k3}, Inputs: ins, Nonce: w.nn(), Timestamp: 12,
-		Outputs: change([]sn.Out{{To: sn.VerifContract, Amount: big.NewInt(700)}}, k3.Address, tot, 700),
+		Outputs: change(couts, k3.Address, tot, 700),
 		InExt:   res.Inputs, OutExt: res.Outputs, Requests: res.Requests})
 	admit(w.must(x, err, "fund contract"))
 	blk, err := n.FormatBlock(n.StateTip(), 1, k0, 5000, setup, true)
